@@ -58,6 +58,35 @@ def findings(prog, fi: FuncInfo):
                 what = _is_single_pass(prog, fi.module, d.value)
                 if what:
                     cands.append((d.name, n, what))
+    # inner `for` clause of a comprehension: evaluated afresh for every item of the outer clause, so a single-pass
+    # iterable there is exhausted after the first outer item — also when it is a deliberate iter(...) cursor
+    cursor_defs = {}
+    for n in g.nodes:
+        if n.ast is None:
+            continue
+        for d in _stmt_defs(n.ast):
+            if d.kind == "assign" and isinstance(d.value, ast.Call) and isinstance(d.value.func, ast.Name) and d.value.func.id == "iter" and len(d.value.args) == 1:
+                cursor_defs.setdefault(d.name, []).append(n)
+    single_names = {nm for nm, _n, _w in cands} | set(cursor_defs)
+    all_defs = {}
+    for n in g.nodes:
+        if n.ast is not None:
+            for d in _stmt_defs(n.ast):
+                all_defs.setdefault(d.name, []).append(d)
+    for n in g.nodes:
+        if n.ast is None:
+            continue
+        for h in _header_exprs(n.ast):
+            for comp in ast.walk(h):
+                if isinstance(comp, (ast.GeneratorExp, ast.ListComp, ast.SetComp, ast.DictComp)) and len(comp.generators) > 1:
+                    for gen in comp.generators[1:]:
+                        it = gen.iter
+                        if isinstance(it, ast.Name) and it.id in single_names:
+                            ds = all_defs.get(it.id, [])
+                            # every definition of the name must be single-pass (a list on one branch makes it fine there)
+                            if ds and all(d.kind == "assign" and d.value is not None and (_is_single_pass(prog, fi.module, d.value) or (
+                                    isinstance(d.value, ast.Call) and isinstance(d.value.func, ast.Name) and d.value.func.id == "iter")) for d in ds):
+                                out.append((it.id, ds[0].stmt, it, it, "a single-pass iterator used as the INNER clause of a comprehension"))
     if not cands:
         return out
     defs_by_name = {}
